@@ -466,7 +466,9 @@ impl BinaryClassification<&[bool]> for &[Pr] {
         let (mut tp, mut fp) = (0.0, 0.0);
         let mut tps_fps = Vec::new();
         let mut thresholds = Vec::new();
-        let mut s0 = 0.0;
+        // start below every valid score so that the curve always begins at (0, 0),
+        // also when the smallest score is exactly 0.0
+        let mut s0 = f32::NEG_INFINITY;
 
         for (s, t) in tuples {
             if (*s - s0).abs() > 1e-10 {
